@@ -36,6 +36,7 @@ def run(chk):
     chk.rule("R-ADD-GUARD", "add_series stores only under len(series) == npts, add_signal only for a Signal with equal dt, otherwise "
                             "they raise; all three add element-wise through reset_values")
     chk.rule("R-RA-ALIAS", "a loop that stores element i of an array does not read a window of the same array (through any alias)")
+    chk.rule("R-RA-LEN", "the averaged record has the record's length (one mean per sample)")
     chk.rule("R-RA-SIB", "both rolling-window loops use the window table i<w/2: [:i+h+1]; i>n-w/2: [i-h:]; else [i-h:i+h+1], h=int(w/2)")
     butter_rules(chk)
     poly_rules(chk)
@@ -50,6 +51,7 @@ def run(chk):
     chk.floor("R-ADD-GUARD", 8)
     chk.floor("R-RA-ALIAS", 2)
     chk.floor("R-RA-SIB", 7)
+    chk.floor("R-RA-LEN", 2)
 
 
 REACHED = set()
@@ -163,8 +165,14 @@ def butter_rules(chk):
             ss = [e for e in r.events("store-shape", BP) if "attr:_values" in e.value.tags and e.value.origin and
                   all(t.endswith("._values") for t in e.value.origin)]
             ok = len(ss) == 1 and ss[0].target_shape == (LinExpr("n"),) and ss[0].value_shape == (LinExpr("n"),)
-            chk.ob("R-BP-LEN", cc + ".window", "the original record is copied into a window of exactly its own length", ok,
-                   derived="%s" % [(e.target_shape, e.value_shape) for e in ss], loc=ss[0].loc if ss else fi.loc())
+            # np.pad(record, (before, after), ...) embeds the whole record by construction
+            pads = [e for e in r.events("lib-call", BP) if e.name == "numpy.pad" and e.args and "attr:_values" in e.args[0].tags]
+            if not ss and len(pads) == 1:
+                chk.ob("R-BP-LEN", cc + ".window", "the original record is copied into a window of exactly its own length",
+                       pads[0].args[0].shape == (LinExpr("n"),), derived="np.pad of the record, shape %r" % (pads[0].args[0].shape,), loc=pads[0].loc)
+            else:
+                chk.ob("R-BP-LEN", cc + ".window", "the original record is copied into a window of exactly its own length", ok,
+                       derived="%s" % [(e.target_shape, e.value_shape) for e in ss], loc=ss[0].loc if ss else fi.loc(), inconclusive=not ss)
 
 
 def _parent_block(root, node):
@@ -210,6 +218,17 @@ def poly_summary(chk, fi, c, rename):
             ren[idx] = "k"
         env = straightline_env(lp.body, Normaliser(rename=ren))
         incs = [n for n in ast.walk(lp) if isinstance(n, ast.AugAssign) and isinstance(n.op, ast.Add)]
+        if not incs:
+            # the terms collected in a list that is summed over its first axis afterwards: terms.append(T); np.sum(terms, axis=0)
+            apps = [n for n in ast.walk(lp) if isinstance(n, ast.Call) and isinstance(n.func, ast.Attribute) and n.func.attr == "append" and
+                    isinstance(n.func.value, ast.Name) and len(n.args) == 1]
+            if len(apps) == 1:
+                lst = apps[0].func.value.id
+                sums = [n for n in ast.walk(fi.node) if isinstance(n, ast.Call) and ast.unparse(n.func) in ("np.sum", "numpy.sum", "sum") and n.args and
+                        isinstance(n.args[0], ast.Name) and n.args[0].id == lst and
+                        (ast.unparse(n.func) == "sum" or any(k.arg == "axis" and isinstance(k.value, ast.Constant) and k.value.value == 0 for k in n.keywords))]
+                if len(sums) == 1:
+                    incs = [type("Term", (), {"value": apps[0].args[0]})()]
         if len(incs) == 1 and coef is not None:
             ck = Normaliser(rename=ren).arg(ast.parse(coef, mode="eval").body)
             out["term"] = env.poly(incs[0].value).subst_atoms(lambda a_: "c_k" if a_ == ck else a_).canon()
@@ -436,6 +455,7 @@ def rolling_rules(chk):
     ta, la = window_table(ra)
     tb, lb = window_table(rr)
     oks = []
+    unloc = []
     for nm, t, fi in (("Signal.running_average", ta, ra), ("AccSignal.remove_rolling_average", tb, rr)):
         good = [False, False, False]
         if t and len(t) == 3 and t[0][0] is not None and t[0][0][0] == "Lt" and t[0][0][1] == Poly.atom("i") and t[2][0] is None:
@@ -448,14 +468,28 @@ def rolling_rules(chk):
                     (("Gt", i_, ex.poly(ast.parse("len(X) - Z", mode="eval").body)), ((i_ - H, None),)),
                     (None, ((i_ - H, i_ + H + one),))]
             good = [t[k] == want[k] for k in range(3)]
+        elif t and len(t) == 2 and t[0][0] is not None and t[0][0][0] == "Lt" and t[0][0][1] == Poly.atom("i") and t[1][0] is None:
+            # without the tail branch: [i-h : i+h+1] already stops at the end of the record (a slice bound past the end is the end), so the
+            # two-way table  i < w/2: [:i+h+1]  else [i-h:i+h+1]  selects the same windows
+            half = t[0][0][2]
+            ex = Normaliser(env={"Z": half})
+            H = ex.poly(ast.parse("int(Z)", mode="eval").body)
+            i_ = Poly.atom("i")
+            one = Poly.const(1)
+            ok2 = t[0] == (("Lt", i_, half), ((None, i_ + H + one),)) and t[1] == (None, ((i_ - H, i_ + H + one),))
+            good = [ok2, ok2, ok2]
+        # a loop without a three-way decision on the index (window bounds precomputed, clipped, vectorised ...) is a different design: the
+        # table cannot be located in it and the rule does not decide it; a three-way table that differs is refuted
+        located = bool(t) and len(t) >= 2
+        unloc.append(not located)
         chk.ob("R-RA-SIB", "eqsig/single.py:%s{window table}" % nm, "windows [:i+h+1] / [i-h:] / [i-h:i+h+1] with h = int(w/2), branches i < w/2, "
-               "i > n - w/2, else", all(good), derived="%s" % (_show_table(t),), loc=fi.loc())
+               "i > n - w/2, else", all(good), derived="%s" % (_show_table(t),), loc=fi.loc(), inconclusive=not located)
         for k in range(3):
             chk.ob("R-RA-SIB", "eqsig/single.py:%s{branch %d}" % (nm, k), "branch %d of the window table" % k, good[k],
-                   derived="%s" % (_show_table(t)[k] if t and k < len(t) else "?",), loc=fi.loc(), nontrivial=False)
+                   derived="%s" % (_show_table(t)[k] if t and k < len(t) else "?",), loc=fi.loc(), nontrivial=False, inconclusive=not located)
         oks.append(all(good))
     chk.ob("R-RA-SIB", "running_average~remove_rolling_average", "the two loops have the same window table (each in terms of its own width)",
-           all(oks), derived="both match the table: %s" % oks)
+           all(oks), derived="both match the table: %s" % oks, inconclusive=any(unloc))
     # ---- aliasing: writes and windowed reads inside the loop
     for q, cls in ((SIG + ".running_average", SIG), (ACC + ".remove_rolling_average", ACC)):
         fi = P.fn(q)
@@ -464,9 +498,19 @@ def rolling_rules(chk):
                 d = {}
                 if variant is not None:
                     d["mtype"] = const_av("velocity" if variant == "velocity" else "acc")
+                if "width" in fi.params:        # any window width, not the default one
+                    d["width"] = AV(kind=K_SCALAR, dtype="int", shape=(), sign=S_POS, origin=frozenset(["lit"]), tags=frozenset(["p:width"]),
+                                    sym=LinExpr("w"))
                 return d
             r = analyse(chk, q, build, self_cls=cls)
             REACHED.update(r.I.stats["functions"])
+            cc = "eqsig/single.py:%s%s" % (q.split(".", 2)[2], "" if variant is None else "(mtype=%s)" % variant)
+            o_ = r.st.heap[r.self_obj.id]
+            tgt_attr = "_values" if variant in (None, "values") else None
+            if tgt_attr:
+                # one mean per original sample, however the means are computed (a library routine whose output length follows the longer
+                # of its operands does not keep it)
+                expect(chk, "R-RA-LEN", cc + ".values", o_.attrs.get(tgt_attr), length="n", kind=K_ARRAY, loc=fi.loc())
             loops = [n for n in ast.walk(fi.node) if isinstance(n, ast.For)]
             in_loop = lambda node: node is not None and any(node is x for lp in loops for x in ast.walk(lp))
             writes = [e for e in r.events("mutation", q) if e.how in ("subscript-store", "augassign-subscript") and in_loop(e.node)]
